@@ -86,7 +86,7 @@ func runLimitGrid(t *testing.T, size uint64, viaRPC bool, unstable bool) {
 		gr.must(fmt.Errorf("FSINFO failed: %d", fi.Status))
 	}
 	r := fi.Resok
-	if r.Rtpref > r.Rtmax || r.Wtpref > r.Wtmax || r.Rtmax == 0 || r.Wtmax == 0 || uint64(r.Dtpref) > uint64(r.Rtmax) || r.Maxfilesize == 0 ||
+	if r.Rtpref > r.Rtmax || r.Wtpref > r.Wtmax || r.Rtmax == 0 || r.Wtmax == 0 || r.Maxfilesize == 0 ||
 		(r.Rtmult != 0 && r.Rtmax%r.Rtmult != 0) || (r.Wtmult != 0 && r.Wtmax%r.Wtmult != 0) {
 		gr.must(fmt.Errorf("FSINFO announces incoherent limits: %+v", r))
 	}
